@@ -378,6 +378,10 @@ let mon_c04 (r : runres) (sc : scenario) =
              end
            | _ -> ())
         end else if rr > 0 then begin
+          (* a failed allocation inside start is never something the launch can do without *)
+          List.iter (fun e -> if by main e && List.mem e.e_call [ CMalloc; CCalloc; CRealloc; CStrdup ] && ret e = 0 && i e.e_errno > 0 then
+                        fail (Printf.sprintf "C04/success-despite-failed-allocation/%s" (Show.call_name e.e_call))
+                          (Printf.sprintf "%s failed with errno %d inside start, start returned %d" (Show.call_name e.e_call) (i e.e_errno) rr)) evs;
           (match List.rev kids with
            | [] -> fail "C04/success-without-child/no-fork" "start returned success but no child was created"
            | c :: _ ->
@@ -471,6 +475,29 @@ let mon_c11 (r : runres) =
                | [] -> fail "C11/missing-exit-handle" "program holds no exit-detection handle"
                | _ -> fail "C11/extra-fd/exit-dup" "program holds several copies of the exit handle")
             | None -> ())
+         | [] -> ())
+      | OStart (_, _, o, _, _), RInt rr when i rr > 0 && o.o_fork && i st.s_after.w_cur = main ->
+        (* fork mode: no exec follows, so what the forked child holds when start returns in it is
+           what it keeps: its three streams and the exit handle, nothing else *)
+        (match List.rev (forked_children main evs) with
+         | c :: _ ->
+           let cf = fds_of st.s_after c in
+           (* descriptors the caller itself named in the options stay the caller's business *)
+           let files = List.map (fun (k, v) -> (i k, Option.map i v)) (files_list st.s_before) in
+           let named (r : redirect) =
+             (if i r.rd_handle <> 0 then [ i r.rd_handle ] else [])
+             @ (match List.assoc_opt (i r.rd_file) files with Some (Some fd) -> [ fd ] | _ -> []) in
+           let callers = named o.o_in @ named o.o_out @ named o.o_err
+                         @ (match List.assoc_opt (i o.o_file) files with Some (Some fd) -> [ fd ] | _ -> []) in
+           let cf = List.filter (fun (k, _) -> not (List.mem k callers)) cf in
+           let is_exit (_, d) = match d.f_obj with
+             | OPipeW q -> List.exists (fun (_, pd) -> pd.f_obj = OPipeR q) (fds_of st.s_after main)
+                           && not (List.exists (fun (k, d') -> k <= 2 && d'.f_obj = OPipeW q) cf)
+             | _ -> false in
+           List.iter (fun (k, d) ->
+               if k > 2 && not (is_exit (k, d)) then
+                 fail (Printf.sprintf "C11/extra-fd/fork-mode/%s" (match d.f_obj with OPipeR _ | OPipeW _ -> "pipe-end" | _ -> "other"))
+                   (Printf.sprintf "forked child (no exec) keeps descriptor %s" (Show.fdent (z_of_int k, d)))) cf
          | [] -> ())
       | _ -> ()))
 
@@ -583,6 +610,20 @@ let mon_c03 (r : runres) =
                | _ -> ())
             | None -> ())
          | [] -> ())
+      | OStart (_, Some (a0 :: _), o, _, _), RInt rr
+        when i rr = -2 && not o.o_fork && i st.s_after.w_cur = main && faults_of r = [] && List.exists (fun ch -> i ch = 47) a0 ->
+        (* a program named by a path with a directory part is looked up from the PARENT's working
+           directory: if it is runnable there, "no such file" is the wrong answer *)
+        let pb = proc st.s_before main in
+        let full = abs_path pb.pr_cwd a0 in
+        (match fs_lookup full st.s_before with
+         | Some (FExec _) ->
+           let wd_ok = match o.o_wd with
+             | Some d -> (match fs_lookup (abs_path pb.pr_cwd d) st.s_before with Some FDir -> true | _ -> false)
+             | None -> true in
+           if wd_ok then fail "C03/relative-program-not-found"
+               (Printf.sprintf "%s is runnable from the parent's directory (%s) but start reported ENOENT" (string_of_str a0) (string_of_str full))
+         | _ -> ())
       | _ -> ()))
 
 (* C13 (start part): invalid options are rejected before any resource is created *)
@@ -633,6 +674,23 @@ let mon_c07 (r : runres) =
              fail "C07/result/timeout-expected" (Printf.sprintf "every wait expired, child not reaped, stop returned %d" rr);
            if not in_range && rr >= 0 && hi.status = None && not was_reaped then
              fail "C07/result/error-expected" (Printf.sprintf "out-of-range action, stop returned %d" rr);
+           (* "the error of a failed action otherwise": once a call of an action fails (poll, waitpid,
+              kill; scratch allocation), the sequence ends with that error -- no later action runs *)
+           (let mine = List.filter (fun e -> by main e && List.mem e.e_call [ CPoll; CWaitpid; CKill; CCalloc; CMalloc ]) evs in
+            let rec after_fail = function
+              | [] -> None
+              | e :: rest when (ret e = -1 || (List.mem e.e_call [ CCalloc; CMalloc ] && ret e = 0)) && i e.e_errno > 0 -> Some (e, rest)
+              | _ :: rest -> after_fail rest in
+            match after_fail mine with
+            | Some (e, rest) when hi.status = None ->
+              let later = List.filter (fun x -> List.mem x.e_call [ CPoll; CWaitpid; CKill ]) rest in
+              if later <> [] then
+                fail (Printf.sprintf "C07/continued-after-failed-action/%s" (Show.call_name e.e_call))
+                  (Printf.sprintf "%s failed with errno %d, yet the stop sequence went on with %s" (Show.call_name e.e_call) (i e.e_errno) (Show.call_name (List.hd later).e_call))
+              else if rr <> - (i e.e_errno) then
+                fail (Printf.sprintf "C07/result/not-the-failed-action's-error/%s" (Show.call_name e.e_call))
+                  (Printf.sprintf "%s failed with errno %d, stop returned %d" (Show.call_name e.e_call) (i e.e_errno) rr)
+            | _ -> ());
            (* the whole sequence never blocks longer than the sum of its (finite) time-outs *)
            (let tms = List.map snd acts_n in
             let resolve t = if t = -2 then (match hi.deadline_abs with Some d -> Some (max 0 (d - i st.s_before.w_time)) | None -> None)
@@ -1141,6 +1199,16 @@ let mon_c16 (r : runres) =
                               fail "C16/result/zero-before-closed" (Printf.sprintf "drain returned 0 but stream %d was never reported closed" s)) [ 1; 2 ]
               end)
          | _ -> ())
+      | (ORunEx (_, o, _, _, _), RDrain (rr, _) | ORun (_, o, _), RInt rr) when not o.o_fork && i rr >= 0 ->
+        (* run / run_ex: a non-negative result is how the child ended -- the decoded status of a
+           child this very call reaped -- never a sink's value or anything else *)
+        let main = main_of r in
+        let evs = step_events st in
+        let reaped = List.filter_map (fun e -> if by main e && is_call CWaitpid e && ret e > 0 then Some (decode (out 0 e)) else None) evs in
+        if not (List.mem (i rr) reaped) then
+          fail "C16/run-result/not-the-exit-status"
+            (Printf.sprintf "run returned %d, the child it reaped ended with %s" (i rr)
+               (match reaped with [] -> "(no child reaped)" | l -> String.concat "," (List.map string_of_int l)))
       | _ -> ()))
 
 (* C17: nonblocking never blocks; start-up input never blocks start *)
